@@ -445,3 +445,93 @@ theorem finishRun_ss (fuel : Nat) (e : Engine M) : SSame e (finishRun u fuel e) 
 end run
 
 end StoreFrame
+
+/-! ### what `_update_all_routes_a_partial_candle` does to the store of its symbol (bridge to the store protocol of C07) -/
+
+namespace StoreFrame
+open Jesse Jesse.Eng Jesse.Gen Jesse.Acc
+
+variable {M : Type}
+
+theorem getD_upd_same {α} [Inhabited α] (l : List α) (i : Nat) (f : α → α) (h : i < l.length) :
+    (Acc.upd l i f).getD i default = f (l.getD i default) := by
+  induction l generalizing i with
+  | nil => simp at h
+  | cons x xs ih =>
+    cases i with
+    | zero => simp [Acc.upd]
+    | succ i => simp only [Acc.upd, List.getD_cons_succ]; exact ih i (by simpa using h)
+
+theorem length_upd {α} (l : List α) (i : Nat) (f : α → α) : (Acc.upd l i f).length = l.length := by
+  induction l generalizing i with
+  | nil => simp [Acc.upd]
+  | cons x xs ih => cases i <;> simp [Acc.upd, ih]
+
+/-- the store-level step of PUBLISH for one timeframe: the aggregate of the last `needed` stored minutes
+    (`needed` from the candle's timestamp) is added to the timeframe's array -/
+def pubStep (c : Candle) (s : SymStore) (tf : Nat) : SymStore :=
+  match Store.generate tf (s.short.drop (s.short.length - (((c.ts % ((tf : Int) * 60000)) / 60000).toNat + 1))) with
+  | .ok g => setLong s tf (Store.addCandle (longOf s tf) g)
+  | .error _ => s
+
+theorem storeOf_addCandle (e : Engine M) (sym tf : Nat) (c : Candle) (hs : sym < e.stores.length) :
+    storeOf (addCandle e sym tf c) sym =
+      (if tf = 1 then { storeOf e sym with short := Store.addCandle (storeOf e sym).short c }
+       else setLong (storeOf e sym) tf (Store.addCandle (longOf (storeOf e sym) tf) c)) := by
+  unfold addCandle storeOf
+  show (Acc.upd e.stores sym _).getD sym default = _
+  rw [getD_upd_same _ _ _ hs]
+
+theorem storeOf_fail (e : Engine M) (k : Err) (sym : Nat) : storeOf (fail e k) sym = storeOf e sym := by
+  unfold fail; split <;> rfl
+
+theorem stores_length_addCandle (e : Engine M) (sym tf : Nat) (c : Candle) :
+    (addCandle e sym tf c).stores.length = e.stores.length := by
+  unfold addCandle; exact length_upd _ _ _
+
+theorem stores_length_fail (e : Engine M) (k : Err) : (fail e k).stores.length = e.stores.length := by
+  unfold fail; split <;> rfl
+
+/-- `_update_all_routes_a_partial_candle`, seen from the store of its symbol: REPLACE LAST on the 1m array, then one
+    PUBLISH step per bigger timeframe of the symbol -/
+theorem updatePartialCandle_store (e : Engine M) (sym : Nat) (c : Candle) (hs : sym < e.stores.length) :
+    storeOf (updatePartialCandle e sym c) sym =
+      (((e.cfg.routes ++ e.cfg.dataRoutes).filter (fun r => r.sym = sym ∧ r.tf ≠ 1)).map (·.tf)).foldl (pubStep c)
+        { storeOf e sym with short := Store.addCandle (storeOf e sym).short c } := by
+  unfold updatePartialCandle
+  dsimp only
+  have h1 : storeOf (addCandle e sym 1 c) sym = { storeOf e sym with short := Store.addCandle (storeOf e sym).short c } := by
+    rw [storeOf_addCandle e sym 1 c hs]; simp
+  have hl1 : sym < (addCandle e sym 1 c).stores.length := by rw [stores_length_addCandle]; exact hs
+  have htf : ∀ tf ∈ (((e.cfg.routes ++ e.cfg.dataRoutes).filter (fun r => r.sym = sym ∧ r.tf ≠ 1)).map (·.tf)), tf ≠ 1 := by
+    intro tf h
+    obtain ⟨r, hr, rfl⟩ := List.mem_map.mp h
+    have := (List.mem_filter.mp hr).2
+    simp only [decide_eq_true_eq] at this
+    exact this.2
+  generalize (((e.cfg.routes ++ e.cfg.dataRoutes).filter (fun r => r.sym = sym ∧ r.tf ≠ 1)).map (·.tf)) = tfs at htf
+  rw [← h1]
+  generalize addCandle e sym 1 c = e1 at hl1
+  clear h1
+  induction tfs generalizing e1 with
+  | nil => rfl
+  | cons tf rest ih =>
+    simp only [List.foldl_cons]
+    have h1 : tf ≠ 1 := htf tf List.mem_cons_self
+    have hstep : storeOf (match Store.generate tf ((storeOf e1 sym).short.drop ((storeOf e1 sym).short.length - (((c.ts % ((tf : Int) * 60000)) / 60000).toNat + 1))) with
+        | .ok g => addCandle e1 sym tf g
+        | .error k => fail e1 k) sym = pubStep c (storeOf e1 sym) tf ∧
+        sym < (match Store.generate tf ((storeOf e1 sym).short.drop ((storeOf e1 sym).short.length - (((c.ts % ((tf : Int) * 60000)) / 60000).toNat + 1))) with
+        | .ok g => addCandle e1 sym tf g
+        | .error k => fail e1 k).stores.length := by
+      unfold pubStep
+      cases hg : Store.generate tf ((storeOf e1 sym).short.drop ((storeOf e1 sym).short.length - (((c.ts % ((tf : Int) * 60000)) / 60000).toNat + 1))) with
+      | error k => exact ⟨storeOf_fail _ _ _, by rw [stores_length_fail]; exact hl1⟩
+      | ok g =>
+        refine ⟨?_, by rw [stores_length_addCandle]; exact hl1⟩
+        rw [storeOf_addCandle e1 sym tf g hl1]
+        simp [h1]
+    rw [← hstep.1]
+    exact ih (fun t ht => htf t (List.mem_cons_of_mem _ ht)) _ hstep.2
+
+end StoreFrame
